@@ -128,6 +128,19 @@ Theorem C07_head_stable : forall sprefix cprefix hs l e,
 Proof. intros. now apply hops_head. Qed.
 Print Assumptions C07_head_stable.
 
+(* ... and on a path that mixes HEAD requests with body-carrying ones (a client's follow-up
+   HEAD behind a GET, a handler's preliminary ResolveBlob in front of one; no text added, bodies
+   that fit) what arrives is the status fallback carried through the hops after the last HEAD:
+   the status survives, identity is the fallback's from the first HEAD hop on ... *)
+Theorem C07_head_then_body : forall sprefix cprefix p e,
+  forallb Obs.C07.hpspec p = true -> existsb h_head p = true ->
+  hops sprefix cprefix p e = hops sprefix cprefix (Obs.C07.after_head p) (head_result e) /\
+  forallb plainspec (Obs.C07.after_head p) = true /\
+  marshal_status (hops sprefix cprefix p e) = marshal_status e /\
+  forall t, is (hops sprefix cprefix p e) t = is_head (marshal_status e) t.
+Proof. exact Obs.C07.head_then_body. Qed.
+Print Assumptions C07_head_then_body.
+
 (* ... witness (finding head-identity): ErrBlobUnknown through a HEAD carrier answers
    errors.Is(err, ErrBlobUnknown) = false and errors.Is(err, ErrNameUnknown) = true. *)
 Theorem C07_is_preserved_head_refuted : exists hs e,
